@@ -242,6 +242,7 @@ fn cmd_check_inner(m: &HashMap<String, String>) -> i32 {
         kind: 2,
         faulty: false,
         elem: 0,
+        uniform: false,
         ops: vec![Op::new(OpK::ArrToV), Op::new(OpK::VIntoIter), Op::ab(OpK::Next, 0, 1), Op::new(OpK::NextBack), Op::a(OpK::Observe, 0), Op::new(OpK::Len), Op::new(OpK::Drop)],
     };
     let rt = plan_from_json(&json::parse(&plan_to_json(&synth).pretty()).unwrap_or(J::Null));
@@ -360,6 +361,7 @@ fn cmd_check_inner(m: &HashMap<String, String>) -> i32 {
         ("runs_with_wide_element", J::i(st.runs_wide as i64)),
         ("runs_with_nodrop_element", J::i(st.runs_plain as i64)),
         ("runs_with_zero_sized_element", J::i(st.runs_zst as i64)),
+        ("runs_with_uniform_payload_values", J::i(st.runs_uniform as i64)),
         ("element_shapes", J::s("Tok: 8 bytes, align 4, drop glue (5/8 of vector runs, all matrix runs); Wide16: 16 bytes, align 16, padding in front of the payload, drop glue (2/8); PlainNoDrop: 8 bytes, no drop glue, so mem::needs_drop::<T>() is false (1/8; order, length, aliasing and read-after-yield are checked, drop accounting is not observable); ZstDrop: zero-sized with drop glue (1/16 of vector runs, taken from the Tok share; counting oracle: created - destroyed - forgotten == owned, len/size_hint, yields)")),
         ("simulated_steps_executed", J::i(st.ops_exec as i64)),
         ("simulated_steps_skipped_precondition", J::i(st.ops_skipped as i64)),
